@@ -30,6 +30,7 @@ pub const F05: u32 = 1 << 5;
 pub const F06: u32 = 1 << 6;
 pub const F12: u32 = 1 << 12;
 pub const F13: u32 = 1 << 13;
+pub const F16: u32 = 1 << 16;
 pub const F18: u32 = 1 << 18;
 pub const F19: u32 = 1 << 19;
 
@@ -638,6 +639,30 @@ impl<'a> Walker<'a> {
                 }
             }
         }
+        if on(F16) {
+            if snap0.half != pos.halfmove || snap0.full != 1 + pos.ply {
+                self.viol("C16", "clock-absolute-value", item, path, format!("half-move clock {} (plies since last capture or pawn move: {}), move counter {} (1 + plies: {}); position {}", snap0.half, pos.halfmove, snap0.full, 1 + pos.ply, pos.to_fen()));
+            }
+            match guarded(|| evaluate::game_ending(board, &mut l.ga, turn)) {
+                Ok(got) => {
+                    l.n.add("draw_verdicts_checked", 1);
+                    let is_draw = matches!(got, Some(GameEnding::Draw));
+                    let terminal = legal.is_empty();
+                    if pos.halfmove >= 100 {
+                        l.n.add("states_at_or_past_100", 1);
+                        if terminal {
+                            l.n.add("terminal_states_at_threshold_unjudged", 1);
+                        } else if !is_draw {
+                            self.viol("C16", "no-draw-at-100", item, path, format!("half-move clock {} but the game is not reported drawn; position {}", pos.halfmove, pos.to_fen()));
+                        }
+                    } else if is_draw {
+                        let cls = if snap0.half >= 100 { "draw-from-wrong-clock" } else { "draw-before-100" };
+                        self.viol("C16", cls, item, path, format!("reported drawn with {} plies since the last capture or pawn move (engine's clock reads {}); position {}", pos.halfmove, snap0.half, pos.to_fen()));
+                    }
+                }
+                Err(p) => self.viol("C16", "panic-in-game_ending", item, path, p),
+            }
+        }
         if on(F18) {
             let mirror = build_board(&pos.mirrored_rot180());
             match (guarded(|| evaluate::board_material_score(board)), guarded(|| evaluate::board_material_score(&mirror))) {
@@ -731,6 +756,9 @@ impl<'a> Walker<'a> {
                 }
                 Err(p) => {
                     self.viol("C03", "panic-in-apply", item, path, format!("move {}: {}; position {}", desc_str(d), p, pos.to_fen()));
+                    if on(F16) && p.contains("overflow") {
+                        self.viol("C16", "counter-overflow-aborts", item, path, format!("move {} with half-move clock {} and move counter {}: {}; position {}", desc_str(d), snap0.half, snap0.full, p, pos.to_fen()));
+                    }
                     return Err(());
                 }
             }
@@ -759,7 +787,29 @@ impl<'a> Walker<'a> {
                     }
                 }
             }
-            let snap1 = if on(F03) || on(F19) || on(F12) { Some(snapshot(board)) } else { None };
+            let snap1 = if on(F03) || on(F19) || on(F12) || on(F16) { Some(snapshot(board)) } else { None };
+            if on(F16) {
+                let s1 = snap1.as_ref().unwrap();
+                l.n.add("clock_steps_checked", 1);
+                let resets = mm.captured.is_some() || mm.moved == Kind::Pawn;
+                let want_half = if resets { 0 } else { snap0.half + 1 };
+                if resets && mm.captured.is_none() {
+                    l.n.add("quiet_pawn_moves", 1);
+                }
+                if s1.half != want_half {
+                    let cls = if mm.moved == Kind::Pawn && mm.captured.is_none() {
+                        "halfmove-not-reset-on-pawn-move"
+                    } else if mm.captured.is_some() {
+                        "halfmove-not-reset-on-capture"
+                    } else {
+                        "halfmove-not-incremented"
+                    };
+                    self.viol("C16", cls, item, path, format!("after {} the half-move clock is {} (was {}), the rule gives {}; position {}", desc_str(d), s1.half, snap0.half, want_half, pos.to_fen()));
+                }
+                if s1.full != snap0.full + 1 {
+                    self.viol("C16", "move-counter-step", item, path, format!("after {} the move counter went {} -> {}; position {}", desc_str(d), snap0.full, s1.full, pos.to_fen()));
+                }
+            }
             if on(F03) {
                 let s1 = snap1.as_ref().unwrap();
                 if s1.turn != snap0.turn {
@@ -795,6 +845,13 @@ impl<'a> Walker<'a> {
                 Ok(Ok(())) => {}
                 other => {
                     self.viol("C04", "undo-failed", item, path, format!("undo of {} : {:?}; position {}", desc_str(d), other.map(|r| r.map_err(|e| e.to_string())), pos.to_fen()));
+                    return Err(());
+                }
+            }
+            if on(F16) {
+                let s2 = snapshot(board);
+                if s2.half != snap0.half || s2.full != snap0.full {
+                    self.viol("C16", "undo-does-not-restore-clocks", item, path, format!("after apply+undo of {}: half {} -> {}, counter {} -> {}; position {}", desc_str(d), snap0.half, s2.half, snap0.full, s2.full, pos.to_fen()));
                     return Err(());
                 }
             }
